@@ -2,6 +2,12 @@
 from props_table import PROPS
 
 META = {
+    "C14": {
+        "text": "Lean 4 theorems over models of VestingFunds (vesting_state.rs with its head/tail representation, quantize_up with truncating division, the schedule loop of add_locked_funds with fuel, unlock_vested_funds, both paths of unlock_vested_and_unvested_funds), the locked_funds layer of state.rs, locked_reward_from_reward and withdraw_balance: schedule_linear (termination within vest_period/step+1 calls, strictly increasing epochs after now+delay on the proving-period grid, cumulative amount at e = floor(sum*(e-begin)/period) or sum, total = sum) and its instantiation to the regenerated REWARD_VESTING_SPEC against the literals 518400/2880/1440 (exactly 180 entries one day apart), add_conserves, unlock_exact, no_early_unlock, forced_unlock_exact (earliest first, min(target, unvested)), forced_paths_agree, inv_all_histories and total_unlock_exact over every history of add/unlock/forced-unlock, locked_reward_75, withdraw_bound and withdraw_refused. Tied to the code on every run by differential execution: the real VestingFunds (raw head/tail compared after every op), QuantSpec::quantize_up, locked_reward_from_reward, and WithdrawBalance on a real miner in the harness VM, with an independent oracle re-deriving the expected table and balance deltas from the property statement.",
+        "design_ref": "DESIGN.md §7 C14",
+        "note": "Trusted: Lean kernel (axioms propext, Classical.choice, Quot.sound only); hand-written models tied to the code differentially (bounded by generator coverage reported in evidence); harness VM in place of ref-fvm; ideal block store in the model; other actors' answers to the withdrawal's sends as environment inputs. MinerFunds models only WithdrawBalance (ApplyRewards / penalties at actor level are checked by the oracle, not by a model theorem); collateral and pending early terminations are planted by the harness, not produced by sector onboarding. F1 (C03) failures are counted as inconclusive.",
+        "technique": "Lean 4 algebraic-law / invariant proofs + differential correspondence of model and real data structure and actor",
+    },
     "C16": {
         "text": "Lean 4 theorems over a model of the paych actor that follows the Rust control flow: acceptance soundness (update_sound), exact owed delta, lane-nonce monotonicity and no_replay over arbitrary later histories, 0 <= owed <= balance in every reachable state (inv_owed), settlement height only extends, collect_exact and collect_after_delay (>= settle epoch + 1440). The model is tied to the code on every run by differential execution of generated voucher/settle/collect histories on the real actor in the harness VM against the compiled model, with an independent oracle evaluating the property on the real state.",
         "design_ref": "DESIGN.md §7 C16",
